@@ -3,14 +3,14 @@
    CHECKER (Model.Check.check, i.e. Ty::check / TypeArgs::is_instance `args.len() != params.len()`)
    at every site where a type can be written or arises: definition signature, let annotation,
    destructor type arguments, case type arguments, the type a constructor / `new` is checked
-   against.  For the types written inside data/codata declarations the SPECIFICATION rejects; the
-   checker does not (known finding C15-lazy-declaration-types): [arity_decl_field_refuted].
+   against, and (since fix <commit15>) the types written inside data/codata declarations
+   ([arity_decl_field]; the checker before that fix did not: [old_arity_decl_field_refuted]).
    All checker-level statements rest on Ty::check being sound for the specification's [wf_ty],
    whose arity test is Nat.eqb: they fail to prove if the model's test is weakened to "fewer". *)
 From Coq Require Import List ZArith String Bool Permutation Lia.
 From SCC Require Import Base.Sexp Lang.SynUtil Lang.FunSyn Model.Check Sem.FunTyping Sem.FunClosed
   Proof.FunInd Proof.FunEq Proof.CheckAnn Proof.TypingReject Proof.CheckBuild Proof.CheckMono Proof.CheckMonoSound
-  Proof.CheckMonoProg Proof.CheckWitness Proof.PrintInj Proof.CheckPoly Proof.CheckInstBase Proof.CheckPolySound Proof.CheckPolyProg.
+  Proof.CheckMonoProg Proof.CheckWitness Proof.PrintInj Proof.CheckPoly Proof.CheckInstBase Proof.CheckPolySound Proof.CheckPolyProg Proof.CheckDecls.
 Import ListNotations.
 Open Scope list_scope.
 
@@ -183,11 +183,25 @@ Proof.
     eapply forallb_false_in; [exact Hb|exact Hbad].
   - rewrite Ht, Hbad. apply andb_false_r.
 Qed.
-(* ... the checker does not (witness: data Foo { C(x: List) } with List[A] declared; known finding) *)
-Theorem arity_decl_field_refuted :
+(* ... and so does the checker since fix <commit15> (Ty::check_template checks the whole type), for ALL programs ... *)
+Theorem arity_decl_field : forall p td s t, In td (tdecls (fpdecls p)) -> In s (td_xtors td) ->
+  (In t (map fbty (xs_args s)) \/ xs_ret s = Some t) ->
+  bad_arity_in_decl (tdecls (fpdecls p)) (td_params td) t -> exists e, check p = CErr e.
+Proof.
+  intros p td s t Htd Hs Ht Hbad. apply bad_arity_not_wf_tty in Hbad.
+  apply check_gen_rejects_ill_formed_decl. unfold decl_types_wf.
+  eapply forallb_false_in; [exact Htd|].
+  eapply forallb_false_in; [exact Hs|]. unfold xsig_ok. destruct Ht as [Ht|Ht].
+  - apply in_map_iff in Ht. destruct Ht as [b [<- Hb]]. apply andb_false_any. left.
+    eapply forallb_false_in; [exact Hb|exact Hbad].
+  - rewrite Ht, Hbad. apply andb_false_r.
+Qed.
+(* ... regression: the checker before that fix did not (witness: data Foo { C(x: List) } with List[A] declared;
+   the former known finding C15-lazy-declaration-types) *)
+Theorem old_arity_decl_field_refuted :
   ~ (forall p td s t, prog_names_ok p = true -> In td (tdecls (fpdecls p)) -> In s (td_xtors td) ->
        (In t (map fbty (xs_args s)) \/ xs_ret s = Some t) ->
-       bad_arity_in_decl (tdecls (fpdecls p)) (td_params td) t -> exists e, check p = CErr e).
+       bad_arity_in_decl (tdecls (fpdecls p)) (td_params td) t -> exists e, old_check_decls p = CErr e).
 Proof.
   intro H.
   destruct (H p_decl_type_args
@@ -200,7 +214,7 @@ Proof.
   - exists "List"%string, [], (mktdecl "List" FData ["A"%string]
         [mkxsig "Nil" [] None; mkxsig "Cons" [mkfb "x" FPrd (FDecl "A" []); mkfb "xs" FPrd (FDecl "List" [FDecl "A" []])] None]).
     split; [constructor|]. split; [reflexivity|]. split; [reflexivity|]. simpl. discriminate.
-  - destruct decl_type_args_accepted as [q Hq]. rewrite Hq in He. discriminate.
+  - destruct decl_type_args_accepted_before_fix as [q Hq]. rewrite Hq in He. discriminate.
 Qed.
 
 (* ---------- the hypotheses are satisfiable: surplus and missing type arguments at each site ---------- *)
